@@ -8,3 +8,16 @@ Inductive ck :=
 | CkEnter       (* sm.Enter<<<<NEXTSTATENAME>>>>(); *)
 | CkSetState    (* sm.estate = E...State.<<<NEXTSTATENAME>>>; *)
 | CkReturn.     (* return; *)
+
+(* Statements of the helper methods of the generated state-machine class (Enter<StateT>(), Exit<StateT>(), Reset(), the
+   constructor), non-threaded configuration; translator/cstmpl.py parses the template text into this IR. *)
+Inductive hstmt :=
+| HNewState                      (* state = new StateT() as <Name>State; *)
+| HOnEntry                       (* state.OnEntry(controller); *)
+| HOnExit                        (* state.OnExit(controller); *)
+| HReturn                        (* return; *)
+| HIfStateIsT (body : list hstmt)  (* if (state is StateT) { ... } *)
+| HSetController                 (* controller = context; *)
+| HCallReset                     (* Reset(); *)
+| HEnterFirst                    (* Enter<<<<STATE_0>>>>(); *)
+| HSetEstateFirst.               (* estate = E<Name>State.<<<STATE_0>>>; *)
